@@ -1,0 +1,212 @@
+//go:build verif
+
+// Round 4, area E: nsqd front doors and observability (C09 C10 C11 C13), checked by nsqvc. Comment-only file.
+// Assumed library contracts and ghosts: lib/trusted/r4E.spec.
+
+package nsqd
+
+// ---------------------------------------------------------------------------------------------------------------------
+// C09: the TCP front door. newClientV2 / NewClient build the per-connection state every command handler relies on.
+// A new connection: nothing ready, nothing in flight, no counters, state init, no channel, not authorised, no TLS / compression,
+// default output buffering and message timeout from the options in force, heartbeat = client-timeout / 2, all four channels and the
+// publish-count map created, reader / writer over the connection, the 4-byte length buffer wired.
+//@ pred r4ENewConnState(c *clientV2) := c.ReadyCount == 0 && c.InFlightCount == 0 && c.MessageCount == 0 && c.FinishCount == 0 && c.RequeueCount == 0 &&
+//@      c.State == stateInit && c.Channel == nil && c.AuthState == nil && c.AuthSecret == "" && c.TLS == 0 && c.Snappy == 0 && c.Deflate == 0 && c.SampleRate == 0 && c.tlsConn == nil
+//@ pred r4ENewConnDefaults(c *clientV2, n *NSQD) := c.OutputBufferSize == defaultBufferSize && c.OutputBufferTimeout == curOpts(n).OutputBufferTimeout &&
+//@      c.MsgTimeout == curOpts(n).MsgTimeout && c.HeartbeatInterval == curOpts(n).ClientTimeout / 2
+//@ pred r4ENewConnWired(c *clientV2) := c.Reader != nil && c.Writer != nil && c.ReadyStateChan != nil && c.ExitChan != nil && c.SubEventChan != nil && c.IdentifyEventChan != nil &&
+//@      c.pubCounts != nil && len(c.pubCounts) == 0 && len(c.lenSlice) == 4
+//@ func newClientV2(id int64, conn net.Conn, nsqd *NSQD) *clientV2
+//@   props C09 C03
+//@   nochan
+//@   requires nsqd != nil
+//@   ensures[new] result != nil && fresh(result) && result.ID == id && result.nsqd == nsqd && result.Conn == conn
+//@   ensures[initial-state] r4ENewConnState(result)
+//@   ensures[defaults-from-options] r4ENewConnDefaults(result, nsqd)
+//@   ensures[wired] r4ENewConnWired(result)
+//@   ensures[channels-distinct] result.ReadyStateChan != result.ExitChan && result.SubEventChan != nil
+//@   ensures[connect-time] result.ConnectTime == lastNow
+//@   ensures[identified-by-address] result.ClientID == result.Hostname && (conn == nil ==> result.ClientID == "") && (conn != nil && !splitFails(addrString(remoteOf(conn))) ==> result.ClientID == hostOf(addrString(remoteOf(conn))))
+//   elems(byte): only the zeroed lenBuf array of the NEW client is written; the frame check does not exempt the backing array of an
+//   array-typed field of a struct allocated by the function itself (ENGINE GAP, notes), so the byte store has to be listed.
+//@   modifies lastNow, cfgRemoteAddr, elems(byte)
+
+// NewClient: the next client id (sequence +1, atomically) and a new connection state for this connection on this daemon.
+//@ func (p *protocolV2) NewClient(conn net.Conn) protocol.Client
+//@   props C09
+//@   nochan
+//@   requires p != nil && p.nsqd != nil
+//@   ensures[a-new-clientV2] dyntype(result) == typetag("*clientV2") && unbox(result, "*clientV2") != nil && fresh(unbox(result, "*clientV2"))
+//@   ensures[for-this-connection] unbox(result, "*clientV2").Conn == conn && unbox(result, "*clientV2").nsqd == p.nsqd
+//@   ensures[next-id] old(p.nsqd.clientIDSequence) < 9223372036854775807 ==> p.nsqd.clientIDSequence == old(p.nsqd.clientIDSequence) + 1 && unbox(result, "*clientV2").ID == p.nsqd.clientIDSequence
+//@   ensures[initial-state] r4ENewConnState(unbox(result, "*clientV2")) && r4ENewConnDefaults(unbox(result, "*clientV2"), p.nsqd) && r4ENewConnWired(unbox(result, "*clientV2"))
+//@   modifies p.nsqd.clientIDSequence, lastNow, cfgRemoteAddr, elems(byte)
+
+// The connection of a client and the daemon of the TCP server are set by their constructors (newClientV2, nsqd.New) and never written again.
+//@ immutable clientV2.Conn, tcpServer.nsqd
+
+// tcpServer.Handle (C09 "wrong magic"): the first four bytes select the protocol. Three outcomes, told apart by what is observable
+// (the magic string itself - string(buf) - cannot be named in a clause, ENGINE GAP as for nsqlookupd): the 4-byte read failed -> closed
+// silently; read but not "  V2" -> ONE error frame (size 18, frame type error, 14 data bytes = E_BAD_PROTOCOL) and closed; "  V2" -> a new
+// clientV2 for this connection is registered in the connection table under the remote address BEFORE it is served by a protocolV2 of this
+// daemon ([registered-first] is a precondition of the IOLoop call, r4E.spec), and AFTER the loop - however it ended - it is removed from
+// the same table under the same key, exactly once, and the connection is closed. Nothing is registered on the two refusal paths.
+// Ghosts: rfErr (error of the most recent io.ReadFull), closedConn, wN / wErrs / wOut (bytes written), mIOLoops / mLoopProt / mLoopClient,
+// r4EConn* (Store / Delete on the sync.Map), all in lib/trusted.
+//@ func (p *tcpServer) Handle(conn net.Conn)
+//@   props C09
+//@   requires[wired] p != nil && p.nsqd != nil && p.nsqd.ci != nil && conn != nil
+//@   ensures[at-most-one-loop] mIOLoops == old(mIOLoops) || mIOLoops == old(mIOLoops) + 1
+//@   ensures[not-served-means-closed] mIOLoops == old(mIOLoops) ==> closedConn == conn
+//@   ensures[not-served-not-registered] mIOLoops == old(mIOLoops) ==> r4EConnStores == old(r4EConnStores) && r4EConnDeletes == old(r4EConnDeletes)
+//@   ensures[short-read-closes-silently] mIOLoops == old(mIOLoops) && rfErr != nil ==> wN == old(wN) && wCalls == old(wCalls)
+//@   ensures[bad-magic-answered] mIOLoops == old(mIOLoops) && rfErr == nil ==> wN > old(wN) || wErrs > old(wErrs)
+//@   ensures[bad-magic-error-frame] mIOLoops == old(mIOLoops) && rfErr == nil && wErrs == old(wErrs) ==> wN == old(wN) + 22 && sbe32(wOut, old(wN)) == 18 && sbe32(wOut, old(wN) + 4) == frameTypeError
+//@   ensures[magic-is-four-bytes] mIOLoops == old(mIOLoops) ==> rfLen == 4 && (rfErr == nil ==> rPos == old(rPos) + 4)
+//@   ensures[served-by-v2-on-this-conn] mIOLoops == old(mIOLoops) + 1 ==> dyntype(mLoopProt) == typetag("*protocolV2") && unbox(mLoopProt, "*protocolV2").nsqd == old(p.nsqd) &&
+//@        dyntype(mLoopClient) == typetag("*clientV2") && unbox(mLoopClient, "*clientV2").Conn == conn
+//@   ensures[registered-once-in-this-table] mIOLoops == old(mIOLoops) + 1 ==> r4EConnStores == old(r4EConnStores) + 1 && r4EConnStoreMap == &p.conns && r4EConnStoreKey == remoteOf(conn) && r4EConnStoreVal == mLoopClient
+//@   ensures[removed-from-the-table-after-the-loop] mIOLoops == old(mIOLoops) + 1 ==> r4EConnDeletes == old(r4EConnDeletes) + 1 && r4EConnDelsSinceLoop == 1 && r4EConnDelMap == &p.conns && r4EConnDelKey == remoteOf(conn)
+//@   ensures[closed-after-the-loop] mIOLoops == old(mIOLoops) + 1 ==> closedConn == conn
+
+// ---------------------------------------------------------------------------------------------------------------------
+// Health (C10 /ping, C13 /stats): the daemon's health is the error most recently handed to SetHealth (nil = healthy), kept in the
+// atomic.Value NSQD.errValue as an errStore (atomic.Value model: r4E.spec). r4EHealthInit: the cell holds an errStore - nsqd.New stores
+// errStore{} before any listener starts and SetHealth only ever stores errStore values (call protocol, precondition of the readers).
+//@ fn r4EHealthCell(n *NSQD) any := r4EAtomAt(&n.errValue, r4EAtomTick)
+//@ pred r4EHealthInit(n *NSQD) := n != nil && dyntype(r4EHealthCell(n)) == typetag("errStore")
+//@ fn r4EHealthErr(n *NSQD) error := unbox(r4EHealthCell(n), "errStore").err
+//@ ghostgroup[lead] healthSets, r4EAtomTick
+
+//@ func (n *NSQD) GetError() error
+//@   props C10 C13
+//@   nochan
+//@   requires r4EHealthInit(n)
+//@   ensures[current-health] result == r4EHealthErr(n)
+//@   modifies
+
+//@ func (n *NSQD) IsHealthy() bool
+//@   props C10 C13
+//@   nochan
+//@   requires r4EHealthInit(n)
+//@   ensures[healthy-iff-no-error] result == (r4EHealthErr(n) == nil)
+//@   modifies
+
+// "OK" exactly when healthy; otherwise the text "NOK - <error>" (fmt.Sprintf("NOK - %s", err): r4ENokText, r4E.spec).
+//@ func (n *NSQD) GetHealth() string
+//@   props C10 C13
+//@   nochan
+//@   requires r4EHealthInit(n)
+//@   ensures[ok-iff-healthy] (r4EHealthErr(n) == nil ==> result == "OK") && (r4EHealthErr(n) != nil ==> result == r4ENokText(r4EHealthErr(n)) && result != "OK")
+//@   modifies
+
+// GET /ping (C10): 200 with the body "OK" iff the daemon is healthy, otherwise 500 whose text is the health string ("NOK - <error>").
+//@ func (s *httpServer) pingHandler(w http.ResponseWriter, req *http.Request, ps httprouter.Params) (interface{}, error)
+//@   props C10
+//@   nochan
+//@   requires s != nil && r4EHealthInit(s.nsqd)
+//@   ensures[healthy-200-ok] r4EHealthErr(s.nsqd) == nil ==> result1 == nil && dyntype(result0) == typetag("string") && unbox(result0, "string") == "OK"
+//@   ensures[unhealthy-500-with-the-error-text] r4EHealthErr(s.nsqd) != nil ==> result0 == nil && dyntype(result1) == typetag("http_api.Err") && unbox(result1, "http_api.Err").Code == 500 &&
+//@        unbox(result1, "http_api.Err").Text == r4ENokText(r4EHealthErr(s.nsqd)) && unbox(result1, "http_api.Err").Text != "OK"
+//@   modifies
+
+// ---------------------------------------------------------------------------------------------------------------------
+// /config/:opt (C10). The options in force are read through getOpts (trusted stub in zz_contracts_channel_verif.go: the pointer
+// curOpts(n), a modelling assumption of the whole nsqd proof - "the options do not change while a function runs" - which this handler
+// is the one place to break; see notes, NOT DONE). What IS decided here: what a PUT stores, for which option names, and that the lookup
+// loop is told; a GET stores nothing.
+// swapOpts: the new options are stored in NSQD.opts (atomic.Value model of r4E.spec); r4EOptSwaps / r4ESwapNSQD / r4ESwapOpts record the call.
+//@ ghost r4EOptSwaps int
+//@ ghost r4ESwapNSQD *NSQD
+//@ ghost r4ESwapOpts *Options
+//@ ghostgroup r4EOptSwaps, r4ESwapNSQD, r4ESwapOpts
+//@ func (n *NSQD) swapOpts(opts *Options)
+//@   props C10
+//@   nochan
+//@   requires n != nil
+//@   ensures[stored] dyntype(r4EAtomAt(&n.opts, r4EAtomTick)) == typetag("*Options") && unbox(r4EAtomAt(&n.opts, r4EAtomTick), "*Options") == opts
+//@   modifies r4EAtomTick, r4EOptSwaps
+//@   onreturn r4EOptSwaps := r4EOptSwaps + 1
+//@   onreturn r4ESwapNSQD := n
+//@   onreturn r4ESwapOpts := opts
+
+// triggerOptsNotification: a NON-BLOCKING send on the daemon's own notification channel: at most one value is queued, never on another channel.
+//@ ghost r4EOptNotifies int
+//@ ghost r4ENotifyNSQD *NSQD
+//@ ghostgroup r4EOptNotifies, r4ENotifyNSQD
+//@ func (n *NSQD) triggerOptsNotification()
+//@   props C10
+//@   requires n != nil
+//@   ensures[at-most-one-queued] sent(n.optsNotificationChan) == old(sent(n.optsNotificationChan)) || sent(n.optsNotificationChan) == old(sent(n.optsNotificationChan)) + 1
+//   (chanstore(struct{}) cannot be written in a frame - ENGINE GAP "unknown element type"; channel counters are outside the frame anyway)
+//@   modifies r4EOptNotifies
+//@   onreturn r4EOptNotifies := r4EOptNotifies + 1
+//@   onreturn r4ENotifyNSQD := n
+
+// getOptByCfgName (assumed: reflection over the struct tags is outside the subset): no effect on modelled state; the call is recorded.
+//@ ghost r4EOptReads int
+//@ ghost r4EOptReadArg any
+//@ ghost r4EOptReadName string
+//@ ghost r4EOptReadVal any
+//@ ghost r4EOptReadOK bool
+//@ ghostgroup r4EOptReads, r4EOptReadArg, r4EOptReadName, r4EOptReadVal, r4EOptReadOK
+//@ func getOptByCfgName(opts interface{}, name string) (interface{}, bool)
+//@   props C10
+//@   trusted
+//@   nochan
+//@   modifies r4EOptReads
+//@   onreturn r4EOptReads := r4EOptReads + 1
+//@   onreturn r4EOptReadArg := opts
+//@   onreturn r4EOptReadName := name
+//@   onreturn r4EOptReadVal := result0
+//@   onreturn r4EOptReadOK := result1
+
+// The options a PUT stores differ from the ones in force at most in the named option (the limits every other contract relies on are copied).
+//@ pred r4ESameLimits(a *Options, b *Options) := a.MaxMsgSize == b.MaxMsgSize && a.MaxBodySize == b.MaxBodySize && a.MaxReqTimeout == b.MaxReqTimeout && a.MaxMsgTimeout == b.MaxMsgTimeout &&
+//@      a.MsgTimeout == b.MsgTimeout && a.MaxRdyCount == b.MaxRdyCount && a.MemQueueSize == b.MemQueueSize && a.TLSRequired == b.TLSRequired && a.AuthHTTPAddresses == b.AuthHTTPAddresses &&
+//@      a.MaxHeartbeatInterval == b.MaxHeartbeatInterval && a.MaxOutputBufferSize == b.MaxOutputBufferSize && a.MaxOutputBufferTimeout == b.MaxOutputBufferTimeout &&
+//@      a.MinOutputBufferTimeout == b.MinOutputBufferTimeout && a.ClientTimeout == b.ClientTimeout && a.OutputBufferTimeout == b.OutputBufferTimeout && a.MaxChannelConsumers == b.MaxChannelConsumers &&
+//@      a.DataPath == b.DataPath && a.HTTPClientConnectTimeout == b.HTTPClientConnectTimeout && a.HTTPClientRequestTimeout == b.HTTPClientRequestTimeout && a.AuthHTTPRequestMethod == b.AuthHTTPRequestMethod
+//@ pred r4ECfgErr(e error) := jHttpErrT(e, 500, "INTERNAL_ERROR") || jHttpErrT(e, 413, "INVALID_VALUE") || jHttpErrT(e, 400, "INVALID_VALUE") || jHttpErrT(e, 400, "INVALID_OPTION")
+//@ func (s *httpServer) doConfig(w http.ResponseWriter, req *http.Request, ps httprouter.Params) (interface{}, error)
+//@   props C10
+//@   requires s != nil && s.nsqd != nil && req != nil
+//@   ensures[typed-error] result1 != nil ==> result0 == nil && r4ECfgErr(result1)
+//@   ensures[get-stores-nothing] old(req.Method) != "PUT" ==> r4EOptSwaps == old(r4EOptSwaps) && r4EOptNotifies == old(r4EOptNotifies)
+//@   ensures[at-most-one-swap] r4EOptSwaps == old(r4EOptSwaps) || r4EOptSwaps == old(r4EOptSwaps) + 1
+//@   ensures[only-the-two-settable-options] r4EOptSwaps != old(r4EOptSwaps) ==> paramByName(ps, "opt") == "nsqlookupd_tcp_addresses" || paramByName(ps, "opt") == "log_level"
+//@   ensures[swap-on-this-daemon-and-lookup-loop-told] r4EOptSwaps != old(r4EOptSwaps) ==> r4ESwapNSQD == s.nsqd && r4EOptNotifies == old(r4EOptNotifies) + 1 && r4ENotifyNSQD == s.nsqd
+//@   ensures[refused-put-stores-nothing] jHttpErrT(result1, 500, "INTERNAL_ERROR") || jHttpErrT(result1, 413, "INVALID_VALUE") || jHttpErrT(result1, 400, "INVALID_VALUE") ==> r4EOptSwaps == old(r4EOptSwaps) && r4EOptNotifies == old(r4EOptNotifies) && r4EOptReads == old(r4EOptReads)
+//@   ensures[stored-is-a-copy-with-only-the-named-option-changed] r4EOptSwaps != old(r4EOptSwaps) ==> fresh(r4ESwapOpts) && r4ESameLimits(r4ESwapOpts, curOpts(s.nsqd)) &&
+//@        (paramByName(ps, "opt") == "log_level" ==> r4ESwapOpts.NSQLookupdTCPAddresses == curOpts(s.nsqd).NSQLookupdTCPAddresses && 1 <= r4ESwapOpts.LogLevel && r4ESwapOpts.LogLevel <= 5) &&
+//@        (paramByName(ps, "opt") == "nsqlookupd_tcp_addresses" ==> r4ESwapOpts.LogLevel == curOpts(s.nsqd).LogLevel)
+//@   ensures[options-in-force-untouched] r4ESameLimits(curOpts(s.nsqd), old(curOpts(s.nsqd))) && curOpts(s.nsqd).LogLevel == old(curOpts(s.nsqd).LogLevel)
+//   the body of a PUT (r4EReadAll*: what io.ReadAll returned, r4E.spec): read through a limit of max-msg-size + 1; a transport error is a 500;
+//   an empty body or one that reaches the limit (i.e. longer than max-msg-size) is a 413 and nothing is stored.
+//@   ensures[put-body-read-once-with-limit] old(req.Method) == "PUT" ==> r4EReadAlls == old(r4EReadAlls) + 1 && r4EReadAllLimit == curOpts(s.nsqd).MaxMsgSize + 1
+//@   ensures[get-reads-no-body] old(req.Method) != "PUT" ==> r4EReadAlls == old(r4EReadAlls)
+//@   ensures[put-read-error-500] old(req.Method) == "PUT" && r4EReadAllErr != nil ==> jHttpErrT(result1, 500, "INTERNAL_ERROR")
+//@   ensures[put-empty-or-oversize-413] old(req.Method) == "PUT" && r4EReadAllErr == nil && (r4EReadAllLen == 0 || r4EReadAllLen == curOpts(s.nsqd).MaxMsgSize + 1) ==> jHttpErrT(result1, 413, "INVALID_VALUE")
+//@   ensures[413-only-for-empty-or-oversize] jHttpErrT(result1, 413, "INVALID_VALUE") ==> r4EReadAllLen == 0 || r4EReadAllLen == curOpts(s.nsqd).MaxMsgSize + 1
+//@   ensures[answer-is-the-named-option] result1 == nil ==> r4EOptReads == old(r4EOptReads) + 1 && r4EOptReadOK && result0 == r4EOptReadVal && r4EOptReadName == paramByName(ps, "opt")
+//@   ensures[unknown-option-400] r4EOptReads != old(r4EOptReads) && !r4EOptReadOK ==> jHttpErrT(result1, 400, "INVALID_OPTION")
+//@   modifies r4EOptSwaps, r4EOptNotifies, r4EOptReads, r4EReadAlls, r4EAtomTick, deref([]string), deref(map[string]any)
+
+// RealTCPAddr / RealHTTPAddr (used by /info and the lookupd registration): the listener's address, or an EMPTY TCP address (port 0) when
+// the daemon has no such listener - never nil.
+//@ func (n *NSQD) RealTCPAddr() net.Addr
+//@   props C10
+//@   nochan
+//@   requires n != nil
+//@   ensures[never-nil] result != nil
+//@   ensures[never-typed-nil] dyntype(result) == typetag("*net.TCPAddr") ==> unbox(result, "*net.TCPAddr") != nil
+//@   ensures[no-listener-empty-tcp-address] n.tcpListener == nil ==> dyntype(result) == typetag("*net.TCPAddr") && unbox(result, "*net.TCPAddr") != nil && fresh(unbox(result, "*net.TCPAddr")) && unbox(result, "*net.TCPAddr").Port == 0
+//@   modifies
+//@ func (n *NSQD) RealHTTPAddr() net.Addr
+//@   props C10
+//@   nochan
+//@   requires n != nil
+//@   ensures[never-nil] result != nil
+//@   ensures[never-typed-nil] dyntype(result) == typetag("*net.TCPAddr") ==> unbox(result, "*net.TCPAddr") != nil
+//@   ensures[no-listener-empty-tcp-address] n.httpListener == nil ==> dyntype(result) == typetag("*net.TCPAddr") && unbox(result, "*net.TCPAddr") != nil && fresh(unbox(result, "*net.TCPAddr")) && unbox(result, "*net.TCPAddr").Port == 0
+//@   modifies
